@@ -12,6 +12,7 @@ def parseVal (s : String) : Option Val :=
   else if s.startsWith "b" then some (.bool ((s.drop 1).toString == "1"))
   else if s.startsWith "s" then (s.drop 1).toString.toNat?.map .str
   else if s.startsWith "h" then (s.drop 1).toString.toInt?.map .flt     -- h<2·x>: the float x (an exact half-integer)
+  else if s = "n" then some .null
   else none
 
 def showVal : Val → String
@@ -19,6 +20,7 @@ def showVal : Val → String
   | .bool b => if b then "b1" else "b0"
   | .str s => s!"s{s}"
   | .flt t => s!"h{t}"
+  | .null => "n"
 
 def parseCmp (s : String) : Option Cmp :=
   match s with
@@ -144,12 +146,29 @@ def showObs (op : Op) (o : Obs) : String :=
 /-- at most one live fact per type after every call -/
 def singleLive (os : List Obs) : Bool := os.all (fun o => o.view.byType.all (fun l => l.length ≤ 1))
 
+/-- an observation as an engine without recorder shows it -/
+def stripLog (o : Obs) : Obs :=
+  match o.res with
+  | .fired names _ => { o with res := .fired names [] }
+  | _ => o
+
+/-- the loader part of the observation line: `G=` when the GRL-loaded engine shows, token for token, what the directly built
+engine shows without its recorder log -/
+def showLoader (ops : List Op) (os1 os2 : List Obs) : List String :=
+  let t1 := (ops.zip (os1.map stripLog)).map fun (op, o) => showObs op o
+  let t2 := (ops.zip (os2.map stripLog)).map fun (op, o) => showObs op o
+  if t1 == t2 then ["G="] else "G" :: (if t2.isEmpty then ["-"] else t2)
+
 def modelLine (line : String) : String :=
   match parseCase line with
   | some (rules, ops) =>
     let os := trace { rules := rules } ops
-    let d := if singleLive os then "D1" else "D0"
-    joinSp (d :: (if os.isEmpty then ["-"] else (ops.zip os).map fun (op, o) => showObs op o))
+    let d1 := singleLive os
+    -- complete observations are compared on D1 histories only (props/c06.py `agree`): on the others the loader engine is not
+    -- predicted (`G~`; saves the second run of the model on the long multi-fact histories) — the oracle is evaluated on it always
+    let g := if !d1 then ["G~"]
+      else showLoader ops os (if rules.map loaderRule == rules then os else trace { rules := rules.map loaderRule } ops)
+    joinSp ((if d1 then "D1" else "D0") :: (if os.isEmpty then ["-"] else (ops.zip os).map fun (op, o) => showObs op o) ++ g)
   | none => "bad-case"
 
 def parseFiring (s : String) : Option Firing :=
@@ -199,6 +218,7 @@ def clauseOf (rules : List Rule) (r : Ref) (op : Op) (o : Obs) : String :=
     | some (L, _) =>
       if !viewsOk L o.view then "wm_views_agree"
       else if !exactOk rules r names then "quiescent_fire_all_exact"
+      else if !exactAfterOk rules r names then "quiescent_fire_all_exact_after_firing"
       else "contents_after_fire"
   | _, _ => "shape"
 
@@ -209,6 +229,39 @@ def firstBad (rules : List Rule) : Nat → Ref → List Op → List Obs → Stri
     | some r' => firstBad rules (i + 1) r' ops os
     | none => s!"{clauseOf rules r op o}@{i}"
   | i, _, _, _ => s!"length@{i}"
+
+def clauseOfG (rules : List Rule) (r : Ref) (op : Op) (o : Obs) : String :=
+  match op, o.res with
+  | .fire, .fired names [] =>
+    match namesOk rules r.firedSince names with
+    | none => if names.all (fun n => rules.any (·.name == n)) then "no_loop_twice" else "unknown_rule"
+    | some _ =>
+      let live' := o.view.contents
+      if !viewsOk live' o.view then "wm_views_agree"
+      else if !(live'.all (fun f => r.live.any (fun g => g.1 == f.1 && g.2.1 == f.2.1))) then "retracted_or_unknown_fact_live"
+      else if !(rules.any (·.action.retract) || live'.map (·.1) == r.live.map (·.1)) then "fact_lost"
+      else if !(!(rules.all (fun rule => rule.action.sets.isEmpty)) || live'.all (fun f => r.live.any (fun g => g == f))) then "contents_after_fire"
+      else if !(!inertRules rules || firedSatisfied rules r.live names) then "fires_only_if_true_now"
+      else if !exactOk rules r names then "quiescent_fire_all_exact"
+      else if !exactAfterOk rules r names then "quiescent_fire_all_exact_after_firing"
+      else "?"
+  | .fire, _ => "shape"
+  | _, _ => clauseOf rules r op o
+
+def firstBadG (rules : List Rule) : Nat → Ref → List Op → List Obs → String
+  | _, _, [], [] => "orunG"
+  | i, r, op :: ops, o :: os =>
+    match ostepG rules r op o with
+    | some r' => firstBadG rules (i + 1) r' ops os
+    | none => s!"loader:{clauseOfG rules r op o}@{i}"
+  | i, _, _, _ => s!"loader:length@{i}"
+
+/-- split the observation tokens at the loader marker: (first engine's tokens, marker, second engine's tokens) -/
+def splitLoader : List String → List String × Option (String × List String)
+  | [] => ([], none)
+  | t :: ts =>
+    if t == "G" || t == "G=" || t.startsWith "G!" then ([], some (t, ts))
+    else let r := splitLoader ts; (t :: r.1, r.2)
 
 def tagsOf (rules : List Rule) (ops : List Op) (os : List Obs) (d1 : Bool) : List String :=
   let fired := os.foldl (fun n o => match o.res with | .fired names _ => n + names.length | _ => n) 0
@@ -230,11 +283,26 @@ def oracleLine (line : String) : String :=
       match tokens o with
       | dTok :: obsToks =>
         if dTok != "D0" && dTok != "D1" then (if dTok.startsWith "panic" then "fail panic" else "fail unparsable-observation") else
+        let (obsToks, loader) := splitLoader obsToks
         let obsToks := if obsToks == ["-"] then [] else obsToks
         match obsToks.mapM parseObs with
         | some os =>
-          if orun rules {} ops os then joinSp ("ok" :: tagsOf rules ops os (dTok == "D1"))
-          else s!"fail {firstBad rules 0 {} ops os}"
+          if !orun rules {} ops os then s!"fail {firstBad rules 0 {} ops os}" else
+          -- the loader path: the same rules through GRL text and the real GrlReteLoader, in a second engine
+          match loader with
+          | none => "fail loader:missing"
+          | some (mark, toks2) =>
+            if mark.startsWith "G!" then "fail loader:load_error" else
+            let toks2 := if toks2 == ["-"] then [] else toks2
+            match (if mark == "G=" then some (os.map stripLog) else toks2.mapM parseObs) with
+            | none => "fail unparsable-observation"
+            | some os2 =>
+              let rules2 := rules.map loaderRule
+              if !orunG rules2 {} ops os2 then s!"fail {firstBadG rules2 0 {} ops os2}"
+              else if quietRules rules && rules2 == rules && !sameFired os os2 then "fail loader:fired_sets_differ"
+              else joinSp ("ok" :: tagsOf rules ops os (dTok == "D1")
+                ++ (if rules2 == rules then [] else ["loader_integral_float"])
+                ++ (if mark == "G=" then ["loader_same_obs"] else ["loader_other_obs"]))
         | none => "fail unparsable-observation"
       | [] => "bad-input"
     | none => "bad-input"
